@@ -120,8 +120,16 @@ def record(prog, vbytes):
             else:
                 out.append({"ev": "return", "key": key})
         else:
-            out.append(dict(e, path=alias(e["path"])) if "path" in e else e)
+            e2 = dict(e)
+            for fld in ("path", "to"):
+                if fld in e2:
+                    e2[fld] = alias(e2[fld])
+            out.append(e2)
     paths = [alias(p) for p in paths]
+    for e2 in out:
+        if e2["ev"] == "dirsync":       # the files directly inside the synced directory
+            e2["files"] = [p for p in sorted(set(paths) | {k for it in prog for k in ([m[0] for m in it[1:]] if it[0] == "||" else [it[0]])})
+                           if os.path.dirname(p) == e2["path"]]
     keys = sorted({(it[1][0] if it[0] == "||" else it[0]) for it in prog} | set(paths))
     return out, keys, notes
 
